@@ -1,13 +1,13 @@
 SPECIFICATION Spec
 CONSTANTS
-  Devs <- DevBoth
+  Devs <- DevTwo
   Ops <- AllOps
   ByteStrings <- BytesThorough
   NumSeqs <- NumsThorough
   NewObjs <- MCNewObjs
   MaxDepth = 2
   Starts <- StartsThorough
-  Allowed = {}
+  Allowed = {"content.sharedStream", "resources.nameCollision"}
   Emit = TRUE
   EmitMod = 2000
   EmitModV = 200
